@@ -5,7 +5,8 @@ META = {
     "text": "PROVED (Coq, for every finite declaration graph, cyclic or not, and every pair of types of the modelled grammar): the recursions "
             "of the analyzer that carry a guard and follow user-defined, possibly cyclic structure terminate — is_sub_type_of (iterative "
             "DFS with a visited set) and the recursive super_reaches filter answer on any world and is_sub_type_of computes exactly the "
-            "reflexive-transitive closure of the effective super edges; the type-check recursion is at most MAX_TYPE_CHECK_LEVEL + 1 "
+            "reflexive-transitive closure of the effective super edges, and the graph get_super_types_iter shows (cyclic edges "
+            "filtered with a fresh visited set per edge) is acyclic whatever is declared; the type-check recursion is at most MAX_TYPE_CHECK_LEVEL + 1 "
             "deep and answers TypeRecursion instead of diverging; InferGuard cuts every cycle (an id checked on a guard is refused on it "
             "and on every guard forked from it, so a checking walk is at most as deep as there are ids); the humanizer's depth guard "
             "bounds write_type. NOT PROVED, only EXPLORED: that indexing, diagnosing and querying terminate without panicking on every "
@@ -27,6 +28,7 @@ META = {
 
 THEOREMS = [
     ("subtype_terminates", "theorem"), ("super_reaches_terminates", "theorem"), ("subtype_is_rtc", "theorem"),
+    ("effective_supers_acyclic", "theorem"), ("braid_example", "example"),
     ("check_depth_bounded", "theorem"), ("check_depth_bounded_gen", "theorem"),
     ("guard_cycle_cut", "theorem"), ("guard_walk_terminates", "theorem"), ("humanize_terminates", "theorem"),
     ("subtype_cycle_example", "example"), ("recursion_error_example", "example"), ("walk_cycle_example", "example"),
